@@ -219,4 +219,727 @@ theorem ack_places (s : S) (idm id : String) (hid : id ≠ idm) : places (ack s 
     · simp [hx, hid]
     · simp [hx]
 
+/-! ## the discard pile, `finish`, and every history -/
+
+def drp (s : S) (id : String) : Nat := cnt s.dropped id
+
+theorem deadLetter_dropped (s : S) (q : Qn) (m : Msg) (hq : q ≠ .dead) : (deadLetter s q m).dropped = s.dropped := by
+  cases q with
+  | dead => exact absurd rfl hq
+  | main => rfl
+  | delayed => rfl
+
+theorem set_consumers (s : S) (q : Qn) (l : List Msg) : (s.set q l).consumers = s.consumers := by cases q <;> rfl
+theorem set_unacked (s : S) (q : Qn) (l : List Msg) : (s.set q l).unacked = s.unacked := by cases q <;> rfl
+theorem deadLetter_consumers (s : S) (q : Qn) (m : Msg) : (deadLetter s q m).consumers = s.consumers := by
+  cases q <;> rfl
+theorem deadLetter_unacked (s : S) (q : Qn) (m : Msg) : (deadLetter s q m).unacked = s.unacked := by
+  cases q <;> rfl
+
+theorem set_dropped (s : S) (q : Qn) (l : List Msg) : (s.set q l).dropped = s.dropped := by cases q <;> rfl
+
+theorem pump_dropped (now : Int) : ∀ (fuel : Nat) (s : S), (pump now fuel s).dropped = s.dropped := by
+  intro fuel
+  induction fuel with
+  | zero => intro s; rfl
+  | succ f ih =>
+    intro s
+    simp only [pump]
+    split
+    · rfl
+    · rename_i cid c m hfind
+      split
+      · rw [ih]; simp only [setCons, set_dropped]
+      · rename_i hdec
+        have hmain : c.cat = .main := by
+          simp only [onMessage] at hdec
+          split at hdec
+          · cases hdec
+          · split at hdec
+            · rename_i h2; simp only [Bool.and_eq_true, beq_iff_eq] at h2; exact h2.2
+            · cases hdec
+        rw [ih, deadLetter_dropped _ _ _ (by rw [hmain]; decide), set_dropped]
+      · simp only [set_dropped]
+
+theorem expireHeads_dropped (now : Int) : ∀ (fuel : Nat) (s : S), (expireHeads now fuel s).dropped = s.dropped := by
+  intro fuel
+  induction fuel with
+  | zero => intro s; rfl
+  | succ f ih =>
+    intro s
+    simp only [expireHeads]
+    split
+    · split
+      · split
+        · rename_i m rest _ _ t _ _
+          rw [ih, pump_dropped]
+          show (deadLetter { s with delayed := rest } .delayed m).dropped = _
+          rw [deadLetter_dropped _ _ _ (by decide)]
+        · rfl
+      · rfl
+    · rfl
+
+theorem settle_dropped (s : S) (now : Int) : (settle s now).dropped = s.dropped := by
+  simp only [settle]
+  rw [pump_dropped]
+  show (expireHeads _ _ s).dropped = _
+  rw [expireHeads_dropped]
+
+
+def total (s : S) (id : String) : Nat := places s id + drp s id
+
+/-- every message is in at most one place -/
+def Inv (s : S) : Prop := ∀ id, places s id ≤ 1
+
+theorem una_le_places (s : S) (id : String) : una s id ≤ places s id := by
+  simp only [places_eq, una]; omega
+
+theorem found_una_pos (s : S) (idm : String) (e : Nat × Qn × Msg) (hf : s.unacked.find? (·.2.2.id == idm) = some e) :
+    0 < una s idm ∧ e.2.2.id = idm := by
+  have hmem := List.mem_of_find?_eq_some hf
+  have hid : e.2.2.id = idm := by simpa using List.find?_some hf
+  exact ⟨List.length_pos_of_mem (List.mem_filter.mpr ⟨hmem, by simp [hid]⟩), hid⟩
+
+/-- `ack` removes exactly the held entries of its id -/
+theorem ack_ledger (s : S) (idm id : String) :
+    places (ack s idm) id + (if id = idm then una s id else 0) = places s id := by
+  cases hf : s.unacked.find? (·.2.2.id == idm) with
+  | none =>
+    have h0 : id = idm → una s id = 0 := by
+      intro h; subst h
+      simp only [una, List.length_eq_zero_iff, List.filter_eq_nil_iff]
+      intro x hx
+      exact List.find?_eq_none.mp hf x hx
+    simp only [ack, takeUnacked, hf]
+    split
+    · rename_i h; rw [h0 h]; rfl
+    · rfl
+  | some e =>
+    simp only [ack, takeUnacked_found s idm _ hf]
+    have h := places_unacked_filter s idm id
+    split
+    · rename_i hi; exact h.1 hi
+    · rename_i hi; have := h.2 hi; omega
+
+theorem ack_dropped (s : S) (idm : String) : (ack s idm).dropped = s.dropped := by
+  simp only [ack, takeUnacked]; split <;> rfl
+
+/-- `nack` (basic_nack, requeue=False) moves the held message to the dead-letter target of the queue it was delivered
+    from — or, for the DEAD queue (no target), to the server's discard pile: nothing else changes -/
+theorem nack_spec (s : S) (idm id : String) (h : una s idm ≤ 1) :
+    total (nack s idm) id = total s id ∧ drp s id ≤ drp (nack s idm) id := by
+  cases hf : s.unacked.find? (·.2.2.id == idm) with
+  | none => simp [nack, takeUnacked, hf]
+  | some e =>
+    obtain ⟨c, q, m⟩ := e
+    obtain ⟨hpos, hid⟩ := found_una_pos s idm _ hf
+    simp only at hid
+    simp only [nack, takeUnacked_found s idm _ hf]
+    have hf2 := places_unacked_filter s idm id
+    have hone : one m id = if id = idm then 1 else 0 := by
+      unfold one; rw [hid]
+      by_cases hi : id = idm
+      · rw [if_pos hi, if_pos hi.symm]
+      · rw [if_neg hi, if_neg (fun h => hi h.symm)]
+    cases q with
+    | dead =>
+      have hp : places (deadLetter ({ s with unacked := s.unacked.filter fun x => !(x.2.2.id == idm) } : S) .dead m) id
+          = places ({ s with unacked := s.unacked.filter fun x => !(x.2.2.id == idm) } : S) id := rfl
+      have hd : drp (deadLetter ({ s with unacked := s.unacked.filter fun x => !(x.2.2.id == idm) } : S) .dead m) id
+          = one m id + drp s id := by
+        show cnt (m :: s.dropped) id = _
+        rw [cnt_cons]; rfl
+      simp only [total, hp, hd]
+      by_cases hi : id = idm
+      · subst hi; have := hf2.1 rfl; simp only [if_true] at hone; omega
+      · have := hf2.2 hi; simp only [if_neg hi] at hone; omega
+    | main =>
+      have hp := places_deadLetter ({ s with unacked := s.unacked.filter fun x => !(x.2.2.id == idm) } : S) .main m id (by decide)
+      have hd : drp (deadLetter ({ s with unacked := s.unacked.filter fun x => !(x.2.2.id == idm) } : S) .main m) id = drp s id := rfl
+      simp only [total, hp, hd]
+      by_cases hi : id = idm
+      · subst hi; have := hf2.1 rfl; simp only [if_true] at hone; omega
+      · have := hf2.2 hi; simp only [if_neg hi] at hone; omega
+    | delayed =>
+      have hp := places_deadLetter ({ s with unacked := s.unacked.filter fun x => !(x.2.2.id == idm) } : S) .delayed m id (by decide)
+      have hd : drp (deadLetter ({ s with unacked := s.unacked.filter fun x => !(x.2.2.id == idm) } : S) .delayed m) id = drp s id := rfl
+      simp only [total, hp, hd]
+      by_cases hi : id = idm
+      · subst hi; have := hf2.1 rfl; simp only [if_true] at hone; omega
+      · have := hf2.2 hi; simp only [if_neg hi] at hone; omega
+
+theorem nack_inv (s : S) (idm : String) (h : Inv s) : Inv (nack s idm) := by
+  intro id
+  have hs := nack_spec s idm id (Nat.le_trans (una_le_places s idm) (h idm))
+  have := h id
+  simp only [total] at hs
+  omega
+
+theorem reject_dropped (s : S) (idm : String) : (reject s idm).dropped = s.dropped := by
+  cases hf : s.unacked.find? (·.2.2.id == idm) with
+  | none => simp only [reject, takeUnacked, hf]
+  | some e => obtain ⟨c, q, m⟩ := e; simp only [reject, takeUnacked_found s idm _ hf, set_dropped]
+
+theorem reject_total (s : S) (idm id : String) (h : Inv s) : total (reject s idm) id = total s id := by
+  simp only [total, drp, reject_dropped, reject_conserves s idm id (Nat.le_trans (una_le_places s idm) (h idm))]
+
+theorem reject_inv (s : S) (idm : String) (h : Inv s) : Inv (reject s idm) := by
+  intro id; rw [reject_conserves s idm id (Nat.le_trans (una_le_places s idm) (h idm))]; exact h id
+
+theorem pump_total (now : Int) (fuel : Nat) (s : S) (id : String) : total (pump now fuel s) id = total s id := by
+  simp only [total, drp, pump_dropped, pump_conserves]
+
+theorem pump_inv (now : Int) (fuel : Nat) (s : S) (h : Inv s) : Inv (pump now fuel s) := by
+  intro id; rw [pump_conserves]; exact h id
+
+theorem settle_total (s : S) (now : Int) (id : String) : total (settle s now) id = total s id := by
+  simp only [total, drp, settle_dropped, settle_conserves]
+
+theorem settle_inv (s : S) (now : Int) (h : Inv s) : Inv (settle s now) := by
+  intro id; rw [settle_conserves]; exact h id
+
+/-- `consume()` — including the dead-lettering of prefetched messages whose ttl has run out — changes the place of no
+    message, for every local queue, fuel and state -/
+theorem consume_total (now : Int) (cat : Qn) : ∀ (fuel : Nat) (s : S) (cid : Nat), Inv s →
+    (∀ id, total (consume now cat fuel s cid).1 id = total s id) ∧ Inv (consume now cat fuel s cid).1 := by
+  intro fuel
+  induction fuel with
+  | zero => intro s cid h; exact ⟨fun _ => rfl, h⟩
+  | succ f ih =>
+    intro s cid h
+    simp only [consume]
+    split
+    · rename_i c _
+      split
+      · rename_i m rest _
+        have hsc : Inv (setCons s cid { c with loc := rest }) := h
+        split
+        · have hn := nack_inv _ m.id hsc
+          have hp := pump_inv now (2 * ((nack (setCons s cid { c with loc := rest }) m.id).main.length +
+            (nack (setCons s cid { c with loc := rest }) m.id).dead.length + 1)) _ hn
+          obtain ⟨h1, h2⟩ := ih _ cid hp
+          refine ⟨fun id => ?_, h2⟩
+          rw [h1 id, pump_total]
+          exact (nack_spec _ m.id id (Nat.le_trans (una_le_places _ m.id) (hsc m.id))).1
+        · exact ⟨fun _ => rfl, hsc⟩
+      · exact ⟨fun _ => rfl, h⟩
+    · exact ⟨fun _ => rfl, h⟩
+
+theorem foldl_reject (now : Int) (l : List Msg) : ∀ (s : S), Inv s →
+    (∀ id, total (l.foldl (fun acc m => settle (reject acc m.id) now) s) id = total s id) ∧
+    Inv (l.foldl (fun acc m => settle (reject acc m.id) now) s) := by
+  induction l with
+  | nil => intro s h; exact ⟨fun _ => rfl, h⟩
+  | cons m rest ih =>
+    intro s h
+    simp only [List.foldl_cons]
+    obtain ⟨h1, h2⟩ := ih _ (settle_inv _ now (reject_inv s m.id h))
+    exact ⟨fun id => by rw [h1 id, settle_total, reject_total s m.id id h], h2⟩
+
+/-- `finish_conserves`: stopping a consumer (cancel + reject of everything in its local queue, of any length) changes
+    the place of no message -/
+theorem finish_conserves (s : S) (cid : Nat) (now : Int) (h : Inv s) :
+    (∀ id, total (finish s cid now) id = total s id) ∧ Inv (finish s cid now) := by
+  simp only [finish]
+  split
+  · rename_i c _
+    exact foldl_reject now c.loc ({ s with consumers := s.consumers.filter (·.1 != cid) } : S) h
+  · exact ⟨fun _ => rfl, h⟩
+
+theorem reject_unacked (s : S) (idm : String) : (reject s idm).unacked = s.unacked.filter fun x => !(x.2.2.id == idm) := by
+  cases hf : s.unacked.find? (·.2.2.id == idm) with
+  | none =>
+    simp only [reject, takeUnacked, hf]
+    symm
+    rw [List.filter_eq_self]
+    intro x hx
+    have := List.find?_eq_none.mp hf x hx
+    simpa using this
+  | some e =>
+    obtain ⟨c, q, m⟩ := e
+    simp only [reject, takeUnacked_found s idm _ hf]
+    cases q <;> rfl
+
+/-- the server hands deliveries only to consumers it knows -/
+def OnlyKnown (s0 s : S) : Prop :=
+  (∀ e ∈ s.unacked, e ∈ s0.unacked ∨ ∃ c ∈ s0.consumers, c.1 = e.1) ∧ (∀ c ∈ s.consumers, ∃ c0 ∈ s0.consumers, c0.1 = c.1)
+
+theorem onlyKnown_refl (s : S) : OnlyKnown s s := ⟨fun _ he => Or.inl he, fun c hc => ⟨c, hc, rfl⟩⟩
+
+theorem onlyKnown_trans {a b c : S} (h1 : OnlyKnown a b) (h2 : OnlyKnown b c) : OnlyKnown a c := by
+  constructor
+  · intro e he
+    rcases h2.1 e he with h | ⟨x, hx, hxe⟩
+    · exact h1.1 e h
+    · obtain ⟨y, hy, hyx⟩ := h1.2 x hx
+      exact Or.inr ⟨y, hy, by rw [hyx, hxe]⟩
+  · intro x hx
+    obtain ⟨y, hy, hyx⟩ := h2.2 x hx
+    obtain ⟨z, hz, hzy⟩ := h1.2 y hy
+    exact ⟨z, hz, by rw [hzy, hyx]⟩
+
+theorem onlyKnown_same (s0 s : S) (hu : s.unacked = s0.unacked) (hc : s.consumers = s0.consumers) : OnlyKnown s0 s := by
+  unfold OnlyKnown; rw [hu, hc]; exact onlyKnown_refl s0
+
+theorem pump_onlyKnown (now : Int) : ∀ (fuel : Nat) (s : S), OnlyKnown s (pump now fuel s) := by
+  intro fuel
+  induction fuel with
+  | zero => intro s; exact onlyKnown_refl s
+  | succ f ih =>
+    intro s
+    simp only [pump]
+    split
+    · exact onlyKnown_refl s
+    · rename_i cid c m hfind
+      obtain ⟨e, hmem, he⟩ := List.exists_of_findSome?_eq_some hfind
+      have hcm : (cid, c) ∈ s.consumers := by
+        have he1 : e = (cid, c) := by
+          cases hq : s.get e.2.cat with
+          | nil => simp [hq] at he
+          | cons x rest => simp only [hq, Option.some.injEq, Prod.mk.injEq] at he; exact he.1
+        rw [← he1]
+        rcases List.mem_append.mp hmem with h1 | h1
+        · exact (List.mem_filter.mp h1).1
+        · exact (List.mem_filter.mp h1).1
+      split
+      · refine onlyKnown_trans ?_ (ih _)
+        constructor
+        · intro e he
+          have he' : e ∈ (s.set c.cat ((s.get c.cat).drop 1)).unacked ++ [(cid, c.cat, m)] := he
+          rw [set_unacked] at he'
+          rcases List.mem_append.mp he' with h1 | h1
+          · exact Or.inl h1
+          · simp only [List.mem_singleton] at h1; subst h1; exact Or.inr ⟨(cid, c), hcm, rfl⟩
+        · intro x hx
+          simp only [setCons, List.mem_map] at hx
+          obtain ⟨x0, hx0, rfl⟩ := hx
+          rw [set_consumers] at hx0
+          refine ⟨x0, hx0, ?_⟩
+          split
+          · rename_i hh; simp only [beq_iff_eq] at hh; exact hh
+          · rfl
+      · refine onlyKnown_trans ?_ (ih _)
+        exact onlyKnown_same s _ (by rw [deadLetter_unacked, set_unacked]) (by rw [deadLetter_consumers, set_consumers])
+      · exact onlyKnown_same s _ (by rw [set_unacked, set_unacked]) (by rw [set_consumers, set_consumers])
+
+theorem expireHeads_onlyKnown (now : Int) : ∀ (fuel : Nat) (s : S), OnlyKnown s (expireHeads now fuel s) := by
+  intro fuel
+  induction fuel with
+  | zero => intro s; exact onlyKnown_refl s
+  | succ f ih =>
+    intro s
+    simp only [expireHeads]
+    split
+    · split
+      · split
+        · rename_i m rest _ _ t _ _
+          refine onlyKnown_trans ?_ (ih _)
+          refine onlyKnown_trans ?_ (pump_onlyKnown _ _ _)
+          have hd : OnlyKnown s (deadLetter { s with delayed := rest } .delayed m) :=
+            onlyKnown_same s _ (by rw [deadLetter_unacked]) (by rw [deadLetter_consumers])
+          exact hd
+        · exact onlyKnown_refl s
+      · exact onlyKnown_refl s
+    · exact onlyKnown_refl s
+
+theorem settle_onlyKnown (s : S) (now : Int) : OnlyKnown s (settle s now) := by
+  simp only [settle]
+  refine onlyKnown_trans ?_ (pump_onlyKnown _ _ _)
+  have := expireHeads_onlyKnown now (s.main.length + s.delayed.length + s.dead.length + 1) s
+  exact this
+
+theorem reject_consumers (s : S) (idm : String) : (reject s idm).consumers = s.consumers := by
+  cases hf : s.unacked.find? (·.2.2.id == idm) with
+  | none => simp only [reject, takeUnacked, hf]
+  | some e => obtain ⟨c, q, m⟩ := e; simp only [reject, takeUnacked_found s idm _ hf, set_consumers]
+
+/-- while the local queue is given back message by message (the server reacting after each reject), what is still in
+    flight under the stopped consumer is only what is still waiting to be given back -/
+theorem foldl_reject_clears (now : Int) (cid : Nat) (l : List Msg) : ∀ (s : S),
+    (∀ c ∈ s.consumers, c.1 ≠ cid) → (∀ e ∈ s.unacked, e.1 = cid → ∃ m ∈ l, m.id = e.2.2.id) →
+    ∀ e ∈ (l.foldl (fun acc m => settle (reject acc m.id) now) s).unacked, e.1 ≠ cid := by
+  induction l with
+  | nil =>
+    intro s _ hu e he hcid
+    obtain ⟨m, hm, _⟩ := hu e he hcid
+    cases hm
+  | cons m rest ih =>
+    intro s hc hu
+    simp only [List.foldl_cons]
+    have hk := settle_onlyKnown (reject s m.id) now
+    apply ih
+    · intro c hcm
+      obtain ⟨c0, hc0, h0⟩ := hk.2 c hcm
+      rw [reject_consumers] at hc0
+      rw [← h0]; exact hc c0 hc0
+    · intro e he hcid
+      rcases hk.1 e he with h1 | ⟨c0, hc0, h0⟩
+      · rw [reject_unacked] at h1
+        obtain ⟨hm1, hm2⟩ := List.mem_filter.mp h1
+        obtain ⟨m', hm', hid'⟩ := hu e hm1 hcid
+        rcases List.mem_cons.mp hm' with h2 | h2
+        · subst h2; simp [hid'] at hm2
+        · exact ⟨m', h2, hid'⟩
+      · rw [reject_consumers] at hc0
+        exact absurd (h0.trans hcid) (hc c0 hc0)
+
+/-- `finish_clears`: when everything the consumer still holds un-acknowledged sits in its local queue (nothing in hand,
+    nothing running), nothing stays in flight under it after `finish` — it is all back at the server -/
+theorem finish_clears (s : S) (cid : Nat) (now : Int) (c : Cons) (hc : s.consumers.find? (·.1 == cid) = some (cid, c))
+    (hloc : ∀ e ∈ s.unacked, e.1 = cid → ∃ m ∈ c.loc, m.id = e.2.2.id) :
+    ∀ e ∈ (finish s cid now).unacked, e.1 ≠ cid := by
+  simp only [finish, hc]
+  apply foldl_reject_clears now cid c.loc
+  · intro x hx
+    have := (List.mem_filter.mp hx).2
+    simpa using this
+  · exact hloc
+
+/-! ### the discard pile: only a DEAD-category consumer can feed it (F23) -/
+
+/-- no dead-letter consumer: nobody listens on the DEAD queue, nothing is held from it -/
+def NoDeadCons (s : S) : Prop := (∀ e ∈ s.consumers, e.2.cat ≠ .dead) ∧ (∀ e ∈ s.unacked, e.2.1 ≠ .dead)
+
+
+theorem ndc_set (s : S) (q : Qn) (l : List Msg) (h : NoDeadCons s) : NoDeadCons (s.set q l) := by
+  unfold NoDeadCons; rw [set_consumers, set_unacked]; exact h
+
+theorem ndc_deadLetter (s : S) (q : Qn) (m : Msg) (h : NoDeadCons s) : NoDeadCons (deadLetter s q m) := by
+  unfold NoDeadCons; rw [deadLetter_consumers, deadLetter_unacked]; exact h
+
+theorem ndc_setCons (s : S) (cid : Nat) (c : Cons) (hc : c.cat ≠ .dead) (h : NoDeadCons s) : NoDeadCons (setCons s cid c) := by
+  refine ⟨fun e he => ?_, h.2⟩
+  simp only [setCons, List.mem_map] at he
+  obtain ⟨e0, he0, rfl⟩ := he
+  split
+  · exact hc
+  · exact h.1 e0 he0
+
+theorem pump_ndc (now : Int) : ∀ (fuel : Nat) (s : S), NoDeadCons s → NoDeadCons (pump now fuel s) := by
+  intro fuel
+  induction fuel with
+  | zero => intro s h; exact h
+  | succ f ih =>
+    intro s h
+    simp only [pump]
+    split
+    · exact h
+    · rename_i cid c m hfind
+      obtain ⟨e, hmem, he⟩ := List.exists_of_findSome?_eq_some hfind
+      have hcm : (cid, c) ∈ s.consumers := by
+        have he1 : e = (cid, c) := by
+          cases hq : s.get e.2.cat with
+          | nil => simp [hq] at he
+          | cons x rest => simp only [hq, Option.some.injEq, Prod.mk.injEq] at he; exact he.1
+        rw [← he1]
+        rcases List.mem_append.mp hmem with h1 | h1
+        · exact (List.mem_filter.mp h1).1
+        · exact (List.mem_filter.mp h1).1
+      have hcat : c.cat ≠ .dead := h.1 _ hcm
+      split
+      · apply ih
+        refine ndc_setCons _ cid { c with loc := c.loc ++ [m] } hcat ?_
+        have hs := ndc_set s c.cat ((s.get c.cat).drop 1) h
+        refine ⟨hs.1, fun e he => ?_⟩
+        rcases List.mem_append.mp he with h1 | h1
+        · exact hs.2 e h1
+        · simp only [List.mem_singleton] at h1; subst h1; exact hcat
+      · exact ih _ (ndc_deadLetter _ _ _ (ndc_set s _ _ h))
+      · exact ndc_set _ _ _ (ndc_set s _ _ h)
+
+theorem expireHeads_ndc (now : Int) : ∀ (fuel : Nat) (s : S), NoDeadCons s → NoDeadCons (expireHeads now fuel s) := by
+  intro fuel
+  induction fuel with
+  | zero => intro s h; exact h
+  | succ f ih =>
+    intro s h
+    simp only [expireHeads]
+    split
+    · split
+      · split
+        · rename_i m rest _ _ t _ _
+          apply ih
+          apply pump_ndc
+          have : NoDeadCons (deadLetter { s with delayed := rest } .delayed m) := ndc_deadLetter _ _ _ h
+          exact this
+        · exact h
+      · exact h
+    · exact h
+
+theorem settle_ndc (s : S) (now : Int) (h : NoDeadCons s) : NoDeadCons (settle s now) := by
+  simp only [settle]
+  apply pump_ndc
+  have := expireHeads_ndc now (s.main.length + s.delayed.length + s.dead.length + 1) s h
+  exact this
+
+theorem filter_unacked_ndc (s : S) (p : Nat × Qn × Msg → Bool) (h : NoDeadCons s) :
+    NoDeadCons ({ s with unacked := s.unacked.filter p } : S) :=
+  ⟨h.1, fun e he => h.2 e (List.mem_filter.mp he).1⟩
+
+/-- without a dead-letter consumer `nack` discards nothing -/
+theorem nack_ndc (s : S) (idm : String) (h : NoDeadCons s) : NoDeadCons (nack s idm) ∧ (nack s idm).dropped = s.dropped := by
+  cases hf : s.unacked.find? (·.2.2.id == idm) with
+  | none => simp only [nack, takeUnacked, hf]; exact ⟨h, trivial⟩
+  | some e =>
+    obtain ⟨c, q, m⟩ := e
+    have hq : q ≠ .dead := h.2 _ (List.mem_of_find?_eq_some hf)
+    simp only [nack, takeUnacked_found s idm _ hf]
+    exact ⟨ndc_deadLetter _ _ _ (filter_unacked_ndc s _ h), by rw [deadLetter_dropped _ _ _ hq]⟩
+
+theorem consume_ndc (now : Int) (cat : Qn) : ∀ (fuel : Nat) (s : S) (cid : Nat), NoDeadCons s →
+    NoDeadCons (consume now cat fuel s cid).1 ∧ (consume now cat fuel s cid).1.dropped = s.dropped := by
+  intro fuel
+  induction fuel with
+  | zero => intro s cid h; exact ⟨h, rfl⟩
+  | succ f ih =>
+    intro s cid h
+    simp only [consume]
+    split
+    · rename_i c hfc
+      have hcat : c.cat ≠ .dead := h.1 _ (List.mem_of_find?_eq_some hfc)
+      split
+      · rename_i m rest _
+        have hsc : NoDeadCons (setCons s cid { c with loc := rest }) := ndc_setCons s cid _ hcat h
+        split
+        · obtain ⟨hn1, hn2⟩ := nack_ndc _ m.id hsc
+          obtain ⟨h1, h2⟩ := ih _ cid (pump_ndc now (2 * ((nack (setCons s cid { c with loc := rest }) m.id).main.length +
+            (nack (setCons s cid { c with loc := rest }) m.id).dead.length + 1)) _ hn1)
+          refine ⟨h1, ?_⟩
+          rw [h2, pump_dropped, hn2]; rfl
+        · exact ⟨hsc, rfl⟩
+      · exact ⟨h, rfl⟩
+    · exact ⟨h, rfl⟩
+
+theorem reject_ndc (s : S) (idm : String) (h : NoDeadCons s) : NoDeadCons (reject s idm) := by
+  cases hf : s.unacked.find? (·.2.2.id == idm) with
+  | none => simp only [reject, takeUnacked, hf]; exact h
+  | some e =>
+    obtain ⟨c, q, m⟩ := e
+    simp only [reject, takeUnacked_found s idm _ hf]
+    exact ndc_set _ _ _ (filter_unacked_ndc s _ h)
+
+theorem foldl_reject_ndc (now : Int) (l : List Msg) : ∀ (s : S), NoDeadCons s →
+    NoDeadCons (l.foldl (fun acc m => settle (reject acc m.id) now) s) ∧
+    (l.foldl (fun acc m => settle (reject acc m.id) now) s).dropped = s.dropped := by
+  induction l with
+  | nil => intro s h; exact ⟨h, rfl⟩
+  | cons m rest ih =>
+    intro s h
+    simp only [List.foldl_cons]
+    obtain ⟨h1, h2⟩ := ih _ (settle_ndc _ now (reject_ndc s m.id h))
+    exact ⟨h1, by rw [h2, settle_dropped, reject_dropped]⟩
+
+theorem finish_ndc (s : S) (cid : Nat) (now : Int) (h : NoDeadCons s) :
+    NoDeadCons (finish s cid now) ∧ (finish s cid now).dropped = s.dropped := by
+  simp only [finish]
+  split
+  · rename_i c _
+    have h0 : NoDeadCons ({ s with consumers := s.consumers.filter (·.1 != cid) } : S) :=
+      ⟨fun e he => h.1 e (List.mem_filter.mp he).1, h.2⟩
+    exact foldl_reject_ndc now c.loc _ h0
+  · exact ⟨h, rfl⟩
+
+/-! ### every history -/
+
+inductive Op where
+  | publish (m : Msg) (millis : Option Int) (now : Int)
+  | settle (now : Int)                                   -- time passes; the server expires delays and serves its consumers
+  | consume (now : Int) (cat : Qn) (fuel : Nat) (cid : Nat)
+  | ack (id : String)
+  | nack (id : String)
+  | reject (id : String)
+  | finish (cid : Nat) (now : Int)
+  | listen (cid : Nat) (cat : Qn) (topics : List String)
+
+/-- the server state plus the two logs the statement is about -/
+structure H where
+  s : S := {}
+  acked : List String := []
+  published : List String := []
+
+def cntS (l : List String) (id : String) : Nat := (l.filter (· == id)).length
+
+def step (h : H) : Op → H
+  | .publish m ms now => { h with s := publish h.s m ms now, published := m.id :: h.published }
+  | .settle now => { h with s := settle h.s now }
+  | .consume now cat fuel cid => { h with s := (consume now cat fuel h.s cid).1 }
+  | .ack id => { h with s := ack h.s id, acked := List.replicate (una h.s id) id ++ h.acked }
+  | .nack id => { h with s := nack h.s id }
+  | .reject id => { h with s := reject h.s id }
+  | .finish cid now => { h with s := finish h.s cid now }
+  | .listen cid cat topics => { h with s := { h.s with consumers := h.s.consumers ++ [(cid, { cat := cat, topics := topics })] } }
+
+/-- the client's only obligation: an id is not used for a second message while the first one still exists -/
+def StepOk (h : H) : Op → Prop
+  | .publish m _ _ => places h.s m.id = 0
+  | _ => True
+
+def run (h : H) : List Op → H
+  | [] => h
+  | op :: rest => run (step h op) rest
+
+def StepsOk (h : H) : List Op → Prop
+  | [] => True
+  | op :: rest => StepOk h op ∧ StepsOk (step h op) rest
+
+/-- the ledger: what was published = what waits or is held (`places`) + what the server discarded + what was acknowledged -/
+def Ledger (h : H) : Prop := ∀ id, total h.s id + cntS h.acked id = cntS h.published id
+
+theorem cntS_cons (x : String) (l : List String) (id : String) : cntS (x :: l) id = (if x = id then 1 else 0) + cntS l id := by
+  simp only [cntS, List.filter_cons, beq_iff_eq]
+  split <;> simp <;> omega
+
+theorem cntS_replicate (n : Nat) (x : String) (l : List String) (id : String) :
+    cntS (List.replicate n x ++ l) id = (if id = x then n else 0) + cntS l id := by
+  induction n with
+  | zero => simp [cntS]
+  | succ k ih =>
+    rw [List.replicate_succ, List.cons_append, cntS_cons, ih]
+    by_cases hi : id = x
+    · subst hi; simp; omega
+    · have : ¬ x = id := fun h => hi h.symm
+      simp [hi, this]
+
+theorem publish_dropped (s : S) (m : Msg) (millis : Option Int) (now : Int) : (publish s m millis now).dropped = s.dropped := by
+  simp only [publish]; split
+  · split <;> rfl
+  · rfl
+
+theorem step_ok (h : H) (op : Op) (hi : Inv h.s) (hl : Ledger h) (hok : StepOk h op) :
+    Inv (step h op).s ∧ Ledger (step h op) := by
+  cases op with
+  | publish m ms now =>
+    constructor
+    · intro id
+      show places (publish h.s m ms now) id ≤ 1
+      rw [publish_places]
+      have := hi id
+      by_cases hm : m.id = id
+      · have h0 : places h.s id = 0 := hm ▸ hok
+        simp only [one]; split <;> omega
+      · simp only [one, if_neg hm]; omega
+    · intro id
+      show total (publish h.s m ms now) id + cntS h.acked id = cntS (m.id :: h.published) id
+      have := hl id
+      simp only [total, drp, publish_dropped, publish_places, cntS_cons, one] at *
+      omega
+  | settle now =>
+    exact ⟨settle_inv h.s now hi, fun id => by show total (settle h.s now) id + _ = _; rw [settle_total]; exact hl id⟩
+  | consume now cat fuel cid =>
+    obtain ⟨h1, h2⟩ := consume_total now cat fuel h.s cid hi
+    exact ⟨h2, fun id => by show total (consume now cat fuel h.s cid).1 id + _ = _; rw [h1 id]; exact hl id⟩
+  | ack idm =>
+    constructor
+    · intro id
+      have := ack_ledger h.s idm id
+      have := hi id
+      show places (ack h.s idm) id ≤ 1
+      omega
+    · intro id
+      show total (ack h.s idm) id + cntS (List.replicate (una h.s idm) idm ++ h.acked) id = cntS h.published id
+      have h1 := ack_ledger h.s idm id
+      have h2 := hl id
+      rw [cntS_replicate]
+      simp only [total, drp, ack_dropped] at *
+      by_cases hid : id = idm
+      · subst hid; simp only [if_true] at *; omega
+      · simp only [if_neg hid] at *; omega
+  | nack idm =>
+    refine ⟨nack_inv h.s idm hi, fun id => ?_⟩
+    show total (nack h.s idm) id + _ = _
+    rw [(nack_spec h.s idm id (Nat.le_trans (una_le_places _ idm) (hi idm))).1]; exact hl id
+  | reject idm =>
+    refine ⟨reject_inv h.s idm hi, fun id => ?_⟩
+    show total (reject h.s idm) id + _ = _
+    rw [reject_total h.s idm id hi]; exact hl id
+  | finish cid now =>
+    obtain ⟨h1, h2⟩ := finish_conserves h.s cid now hi
+    exact ⟨h2, fun id => by show total (finish h.s cid now) id + _ = _; rw [h1 id]; exact hl id⟩
+  | listen cid cat topics => exact ⟨hi, hl⟩
+
+/-- `rabbit_ledger`: after ANY finite history of publish / passing time / consume / ack / nack / reject / finish / new
+    consumers on the RabbitMQ broker, every message is in at most one place, and the ledger balances: nothing appears
+    or disappears except through `publish` and `ack` — or the server's discard pile (`drp`, see `rabbit_no_discard`) -/
+theorem rabbit_ledger : ∀ (ops : List Op) (h : H), Inv h.s → Ledger h → StepsOk h ops →
+    Inv (run h ops).s ∧ Ledger (run h ops) := by
+  intro ops
+  induction ops with
+  | nil => intro h hi hl _; exact ⟨hi, hl⟩
+  | cons op rest ih =>
+    intro h hi hl hok
+    obtain ⟨h1, h2⟩ := step_ok h op hi hl hok.1
+    exact ih _ h1 h2 hok.2
+
+theorem rabbit_ledger_from_empty (ops : List Op) (hok : StepsOk {} ops) (id : String) :
+    places (run {} ops).s id ≤ 1 ∧
+    places (run {} ops).s id + drp (run {} ops).s id + cntS (run {} ops).acked id = cntS (run {} ops).published id := by
+  have h := rabbit_ledger ops {} (fun _ => Nat.zero_le 1) (fun _ => rfl) hok
+  exact ⟨h.1 id, h.2 id⟩
+
+
+def NoDeadListen : List Op → Prop
+  | [] => True
+  | .listen _ cat _ :: rest => cat ≠ .dead ∧ NoDeadListen rest
+  | _ :: rest => NoDeadListen rest
+
+theorem step_no_discard (h : H) (op : Op) (hn : NoDeadCons h.s) (hop : NoDeadListen [op]) :
+    NoDeadCons (step h op).s ∧ (step h op).s.dropped = h.s.dropped := by
+  cases op with
+  | publish m ms now =>
+    refine ⟨?_, publish_dropped _ _ _ _⟩
+    show NoDeadCons (publish h.s m ms now)
+    simp only [publish]
+    split
+    · split <;> exact hn
+    · exact hn
+  | settle now => exact ⟨settle_ndc _ _ hn, settle_dropped _ _⟩
+  | consume now cat fuel cid => exact consume_ndc now cat fuel h.s cid hn
+  | ack idm =>
+    refine ⟨?_, ack_dropped _ _⟩
+    show NoDeadCons (ack h.s idm)
+    simp only [ack, takeUnacked]
+    split
+    · exact filter_unacked_ndc h.s _ hn
+    · exact hn
+  | nack idm => exact nack_ndc _ _ hn
+  | reject idm => exact ⟨reject_ndc _ _ hn, reject_dropped _ _⟩
+  | finish cid now => exact finish_ndc _ _ _ hn
+  | listen cid cat topics =>
+    refine ⟨⟨fun e he => ?_, hn.2⟩, rfl⟩
+    rcases List.mem_append.mp he with h1 | h1
+    · exact hn.1 e h1
+    · simp only [List.mem_singleton] at h1; subst h1; exact hop.1
+
+/-- `rabbit_no_discard`: in every history in which nobody consumes from the DEAD category, the server discards nothing —
+    with `rabbit_ledger`: every published message is then, at every moment, in exactly one of: a queue, a consumer's
+    hands, or acknowledged.  (With a DEAD-category consumer a `nack` discards: `rabbit_nack_nonnormal_witness`, F23.) -/
+theorem rabbit_no_discard : ∀ (ops : List Op) (h : H), NoDeadCons h.s → NoDeadListen ops →
+    (run h ops).s.dropped = h.s.dropped := by
+  intro ops
+  induction ops with
+  | nil => intro h _ _; rfl
+  | cons op rest ih =>
+    intro h hn hl
+    have hop : NoDeadListen [op] ∧ NoDeadListen rest := by
+      cases op <;> first | exact ⟨trivial, hl⟩ | exact ⟨⟨hl.1, trivial⟩, hl.2⟩
+    obtain ⟨h1, h2⟩ := step_no_discard h op hn hop.1
+    show (run (step h op) rest).s.dropped = _
+    rw [ih _ h1 hop.2, h2]
+
+theorem rabbit_exactly_one_place (ops : List Op) (hok : StepsOk {} ops) (hl : NoDeadListen ops) (id : String) :
+    places (run {} ops).s id + cntS (run {} ops).acked id = cntS (run {} ops).published id ∧ places (run {} ops).s id ≤ 1 := by
+  have h := rabbit_ledger_from_empty ops hok id
+  have hnd : NoDeadCons ({} : H).s := by constructor <;> intro e he <;> cases he
+  have hd := rabbit_no_discard ops {} hnd hl
+  have : drp (run {} ops).s id = 0 := by simp only [drp, hd]; rfl
+  omega
+
+-- non-vacuity: a history that satisfies the guards, with a delay, a consumer, a hand-over and a reject
+example : StepsOk {} [.listen 0 .main [], .publish { id := "a", topic := "t", prio := 5, payload := "", params := {} } (some 1500) 0,
+    .settle 2000000, .consume 2000000 .main 3 0, .reject "a", .publish { id := "b", topic := "t", prio := 5, payload := "", params := {} } none 5] ∧
+    NoDeadListen [.listen 0 .main [], .publish { id := "a", topic := "t", prio := 5, payload := "", params := {} } (some 1500) 0,
+    .settle 2000000, .consume 2000000 .main 3 0, .reject "a", .publish { id := "b", topic := "t", prio := 5, payload := "", params := {} } none 5] := by
+  simp only [StepsOk, StepOk, NoDeadListen, true_and, and_true]
+  decide
+
 end Repid.RabbitProofs
